@@ -521,6 +521,29 @@ pub fn run(env: &Env, run: &Run) -> (Stats, Coverage) {
                                 continue;
                             }
                             let lb: Vec<u32> = b.0.chars().map(|c| c as u32).collect();
+                            // the first call may also be `allows` of a standard class (it runs the
+                            // rules of A itself and may leave a cursor behind), then a direct rule call
+                            for rb in rules_present(&lb) {
+                                for q in b.1..b.1 + b.2 {
+                                    for class in 0..2 {
+                                        st.states += 1;
+                                        st.transitions += 2;
+                                        buf.clear();
+                                        buf.push_str(&a.0);
+                                        let _ = crate::subject::guard(|| {
+                                            use precis_core::StringClass;
+                                            if class == 0 {
+                                                precis_core::IdentifierClass::default().allows(buf.as_str()).is_ok()
+                                            } else {
+                                                precis_core::FreeformClass::default().allows(buf.as_str()).is_ok()
+                                            }
+                                        });
+                                        buf.clear();
+                                        buf.push_str(&b.0);
+                                        check_rule(env, rb, &lb, &buf, q, &mut st);
+                                    }
+                                }
+                            }
                             for &ra in &ras {
                                 for rb in rules_present(&lb) {
                                     for p in a.1..a.1 + a.2 {
